@@ -20,8 +20,8 @@ from sim import linkfuncs as LF
 
 PROP = 'C05'
 TIERS = {
-    'quick': {'runs': 3200, 'blocks': 16, 'max_ops': 24},
-    'thorough': {'runs': 64000, 'blocks': 64, 'max_ops': 60},
+    'quick': {'runs': 3200, 'blocks': 16, 'max_ops': 24, 'hist': 0.01},
+    'thorough': {'runs': 64000, 'blocks': 64, 'max_ops': 60, 'hist': 0.03},
 }
 RULE = ('Each run is one seeded history interleaving writes {update_components, update_values_from_data (same shape / new shape), '
         'replace a group state, in-place edit of a top-level non-memoised state (range bounds, multi-range pairs, ROI move_to, mask), '
@@ -41,8 +41,9 @@ ASSUMPTIONS = ['both worlds run the same glue code: a bug that is wrong in the s
 SIMTIME_NOTE = 'simulated poll-clock seconds advanced by the scheduler (FileWatcher timer)'
 PROBES = ['write_after_read', 'nested_state_after_update', 'shape_change_after_read', 'file_reload_fired', 'linked_mask_after_update',
           'stat_after_update', 'copy_read', 'view_read', 'poll_tick_no_change', 'poll_after_file_vanished', 'link_swapped_same_endpoints']
+PROBES_THOROUGH_ONLY = []
 
-READS = ('read_mask', 'read_val', 'read_stat', 'read_hist', 'read_copy')
+READS = ('read_mask', 'read_val', 'read_stat', 'read_hist', 'read_copy', 'hv_read')
 WEIGHTS = {'upd': 6, 'upd_from': 2, 'set_state': 3, 'edit_top': 3, 'add_comp': 1, 'add_link': 1.5, 'remove_link': 0.7, 'swap_link': 1.5,
            'new_group': 2, 'remove_group': 0.5, 'new': 1, 'append': 1.5, 'rewrite': 1.5, 'advance': 2, 'vanish': 0.2,
            'read_mask': 8, 'read_val': 3, 'read_stat': 3, 'read_hist': 2, 'read_copy': 1, 'check': 1.2,
@@ -72,6 +73,12 @@ def generate(rng, cfg, guards):
         ops.append(['append', len(ops) - 1])
         ops.append(['add_link', 0, r8(), 1, r8(), rng.pick(sorted(LF.ONE))])
     ops.append(['new_group', W.gen_recipe(rng, 2, kinds)])
+    hist = rng.chance(cfg.get('hist', 0.0))
+    if hist:
+        # a real histogram viewer (matplotlib, Agg): what it plots is cached in HistogramLayerState
+        ops.append(['hv_new', 0])
+        n = min(n, 14)
+        pairs = sorted(dict(pairs, hv_read=8).items())
     while len(ops) < n:
         k = rng.wpick(pairs)
         if k == 'new':
@@ -112,6 +119,8 @@ def generate(rng, cfg, guards):
             ops.append([k, r8(), r8(), rng.pick([None, 0, 1])])
         elif k == 'read_copy':
             ops.append([k, r8(), r8()])
+        elif k == 'hv_read':
+            ops.append([k])
         else:
             ops.append(['check'])
     ops.append(['check'])
@@ -151,6 +160,7 @@ class CacheWorld(W.World):
         self.detail = None
         self.dirty = False
         self.keep = []
+        self.hv = None
 
     def mark_read(self, st):
         if id(st) not in self.read_states:
@@ -207,6 +217,16 @@ def apply_op(w, op, res, reading, skip=False):
     if k in READS:
         if not reading:
             return 'skipped'
+        if k == 'hv_read':
+            if w.hv is None:
+                return 'none'
+            for la in w.hv.layers:
+                try:
+                    la.state.histogram
+                except Exception:
+                    pass
+            res.probe('viewer_histogram_read')
+            return 'read'
         d = w.pick_data(op[1])
         if d is None:
             return 'none'
@@ -250,6 +270,16 @@ def apply_op(w, op, res, reading, skip=False):
         return 'read'
     if k == 'new':
         w.new_data(op[1], op[2], op[3], cat=op[4], coords=op[5], special=op[6])
+    elif k == 'hv_new':
+        from glue.viewers.histogram.viewer import SimpleHistogramViewer
+        d = w.pick_data(op[1])
+        if d is not None and w.hv is None:
+            v = w.app.new_data_viewer(SimpleHistogramViewer)
+            v.add_data(d)
+            nums = [c for c in d.main_components if d.get_kind(c) == 'numerical']
+            v.state.x_att = nums[0]
+            v.state.hist_x_min, v.state.hist_x_max, v.state.hist_n_bin = -5, 13, 6
+            w.hv = v
     elif k == 'new_file':
         from glue.core.data_factories import load_data
         path = os.path.join(w.tmp, 'f%d.csv' % len(w.files))
@@ -487,6 +517,16 @@ def observe(w):
             for stat in ('minimum', 'maximum', 'sum'):
                 rec['stats'].append([None, c.label, stat, repr(float(d.compute_statistic(stat, c)))])
         out.append(rec)
+    if getattr(w, 'hv', None) is not None:
+        vh = []
+        for la in w.hv.layers:
+            try:
+                edges, vals = la.state.histogram
+                vh.append([getattr(la.layer, 'label', ''), [float(x) for x in np.asarray(vals).ravel()]])
+            except Exception as e:
+                vh.append([getattr(la.layer, 'label', ''), 'error:%s' % type(e).__name__])
+        if out:
+            out[0]['hist'] = out[0]['hist'] + [['viewer', vh]]
     return out
 
 
@@ -608,4 +648,7 @@ def execute(case, res):
             if d:
                 raise Violation('C05/stale-%s/after:%s' % (key, meta['last_write']), 'checkpoint at op %d: %s' % (i, d))
     finally:
+        plt = __import__('sys').modules.get('matplotlib.pyplot')
+        if plt is not None:
+            plt.close('all')
         shutil.rmtree(tmp, ignore_errors=True)
